@@ -1120,12 +1120,23 @@ pub fn run(cx: &mut Cx, w: &World, rng: &mut Rng, budget: u64) {
 
   // ---- isolated probes: cyclic webs, recursive schema references (each in a child process)
   cx.gen("isolated");
-  for (idx, pr) in probes(scale).iter().enumerate() {
+  let list = probes(scale);
+  for (idx, pr) in list.iter().enumerate() {
+    if matches!(pr, Probe::SchemaByReference(..)) {
+      // runs right after its embedded twin (the preceding probe), and only if that one returned: the schema is handled
+      // by the same code on both routes, so one root cause gets one signature
+      continue;
+    }
     k += 1;
     if cx.args.mine(k) {
-      let (entry, class, text) = pr.describe();
-      cx.rep.inc(&format!("isolated_{}", class.replace('-', "_")));
-      cx.isolated(entry, class, In::S(&text), idx);
+      let mut run = |cx: &mut Cx, idx: usize| {
+        let (entry, class, text) = list[idx].describe();
+        cx.rep.inc(&format!("isolated_{}", class.replace('-', "_")));
+        cx.isolated(entry, class, In::S(&text), idx)
+      };
+      if run(cx, idx) && matches!(list.get(idx + 1), Some(Probe::SchemaByReference(..))) {
+        run(cx, idx + 1);
+      }
     }
   }
 }
